@@ -60,6 +60,8 @@ def mod(sigs=(), insts=(), bundles=(), probes=True):
 
 
 def design(mods, top="Top", bundles=None):
+    for k, m in mods.items():
+        m.setdefault("name", k)
     return {"bundles": bundles or {}, "leaves": LEAVES, "top": top, "mods": mods}
 
 
@@ -152,7 +154,7 @@ def bnd(n, of, port=False, flipped=False, role=""):
 def U_bundle():
     out = []
     bundles = {"B1": B1, "B2": B2}
-    cb = mod([], bprobes("bp", B1_LEAVES), [bnd("bp", "B1", port=True)])             # child with a B1-valued port
+    cb = mod([sig("s1", 1, True)], bprobes("bp", B1_LEAVES), [bnd("bp", "B1", port=True)])  # child with a B1-valued port and a scalar one
     cb2 = mod([], bprobes("bq", B2_LEAVES), [bnd("bq", "B2", port=True)])            # child with a nested-bundle port
     top_sigs = [sig("u", 1), sig("v", 2), sig("w3", 3)]
     top_b = [bnd("b", "B1"), bnd("c", "B2"), bnd("tb", "B1", port=True)]
@@ -160,10 +162,11 @@ def U_bundle():
     b1_terms = [Bund("b"), Bund("tb"), Bref("c", "sub"), Anon(x=Sig("u"), y=Sig("v")), AnonDict(x=Sig("u"), y=Sig("v")),
                 Anon(x=Bref("b", "x"), y=Bref("c", "sub", "y")), Anon(x=Slc(Sig("v"), I(0)), y=Slc(Sig("w3"), R(1, 3))),
                 Anon(x=Slc(Bref("b", "y"), I(1)), y=Cat(Sig("u"), Bref("c", "s"))), Pref("k", "bp"),
-                Anon(x=Sig("u"), y=Sig("u")), Anon(x=Sig("u")), Bund("c"), Sig("v"), Anon(x=Pref("k", "bp"), y=Sig("v"))]
+                Anon(x=Sig("u"), y=Sig("u")), Anon(x=Sig("u")), Bund("c"), Sig("v"), Anon(x=Pref("k", "bp"), y=Sig("v")),
+                Anon(x=Pref("k", "s1"), y=Sig("v"))]
     k_terms = [Bund("b"), Bund("tb"), Pref("i", "bp"), Anon(x=Bref("tb", "x"), y=Sig("v"))]
     for t, kt in itertools.product(b1_terms, k_terms):
-        insts = [inst("i", "CB", [("bp", t)]), inst("k", "CB", [("bp", kt)])]
+        insts = [inst("i", "CB", [("bp", t), ("s1", Sig("u"))]), inst("k", "CB", [("bp", kt), ("s1", Slc(Sig("v"), I(1)))])]
         out.append(("U_bundle", design({"CB": cb, "Top": mod(top_sigs, insts + tprobes, top_b)}, bundles=bundles)))
     b2_terms = [Bund("c"), Anon(s=Sig("u"), sub=Bund("b")), Anon(s=Sig("u"), sub=Anon(x=Sig("u"), y=Sig("v"))),
                 Anon(s=Bref("c", "s"), sub=Bref("c", "sub")), Anon(s=Sig("u"), sub=Bund("tb")), Bund("b"),
